@@ -71,6 +71,11 @@ def alloc_sites(pdb):
     return out
 
 
+# allocation sites whose failure is absorbed by design: (function, allocator) -> reason
+TOLERATED = {
+}
+
+
 def r2(ctx, retsets):
     pdb = ctx.pdb
     ctx.rule("C18.R2", "for every allocation call in scope: on the path where it returns NULL the result is not dereferenced, not handed to "
@@ -119,6 +124,13 @@ def r2(ctx, retsets):
                 succ = (flow.av_single(rv) == 0) if not fn.d["ret"].endswith("*") else (rv is not None and rv != flow.av_in(0))
                 if void or succ:
                     problems.append((o["inst"], "NULL stored in %s and the function %s" % (o["counts"]["pub"], "returns nothing" if void else "reports success")))
+        # ... and a function that reports a status reports the failure: no success code on a path on which its own allocation failed
+        rs = retsets.get((fn.unit, fn.name))
+        if fn.d["ret"] == "i32" and rs and rs != "TOP" and 0 in rs and any(v < 0 for v in rs) and (fn.name, c.callee) not in TOLERATED:
+            for o in outs:
+                if o["counts"].get("null") == "1" and flow.av_single(o["ret"]) == 0:
+                    problems.append((o["inst"], "returns the success code although this allocation failed"))
+                    break
         key = "C18.R2:%s:%s" % (fn.name, c.callee)
         seen = set()
         if problems:
